@@ -2393,10 +2393,22 @@ impl<'data> platform::ObjectFile<'data> for File<'data> {
                 if gnu_property.pr_data().len() != 4 {
                     continue;
                 }
-                state.gnu_property_notes.push(crate::elf::GnuProperty {
-                    ptype: gnu_property.pr_type(),
-                    data: gnu_property.data_u32(e)?,
-                });
+                let ptype = gnu_property.pr_type();
+                let data = gnu_property.data_u32(e)?;
+                // A file can carry the same property more than once (e.g. two notes in one
+                // section). Like GNU ld and lld, combine those with OR before the property is
+                // merged with the other input files.
+                if let Some(existing) = state
+                    .gnu_property_notes
+                    .iter_mut()
+                    .find(|p| p.ptype == ptype)
+                {
+                    existing.data |= data;
+                } else {
+                    state
+                        .gnu_property_notes
+                        .push(crate::elf::GnuProperty { ptype, data });
+                }
             }
         }
 
